@@ -37,7 +37,7 @@ PLAN = {
  "C17_m1": [("C17", [])], "C17_m2": [("C17", [])], "C17_m3": [("C17", [])], "C17_m4": [("C17", [])],
  "C18_m1": [("C11", ["--only", "zz"])], "C18_m2": [("C11", ["--only", "zz"])], "C18_m3": [("C08", ["--only", "p256"])],
  "C18_m4": [("C09", ["--only", "jq255s"])],
- "C10_m1": [("C10", ["--tier", "thorough"])],
+ "C10_m1": [("C10", [])],
  "C08s_m1": [("C08", ["--only", "p256"])], "C08s_m2": [("C08", ["--only", "secp256k1"])], "C08s_m3": [("C08", ["--only", "key"])],
  "C08s_m4": [("C08", ["--only", "p256"])],
  "C09s_m1": [("C11", ["--only", "zz"])], "C09s_m2": [("C11", ["--only", "zz"])], "C09s_m3": [("C09", ["--only", "jq255s"])], "C09s_m4": [("C09", ["--only", "gls254"])],
